@@ -150,7 +150,7 @@ def run_benign(limit, workers, seed, files=None, tag="", structural=False, refac
     CHECKER = os.path.join(tempfile.mkdtemp(prefix="ankosweepbin."), "ankocheck")
     shutil.copy(os.path.join(VERIF, "bin/ankocheck"), CHECKER)
     dirs.append(os.path.dirname(CHECKER))
-    p = subprocess.run([ensure_gomutate(), "-refactor" if refactor else "-benign"] + (files or FILES), cwd=REPO, env=ENV, capture_output=True, text=True)
+    p = subprocess.run([ensure_gomutate(), "-refactor" if refactor else "-benign"] + (files or FILES), cwd=REPO, env=TENV, capture_output=True, text=True)
     muts = [json.loads(l) for l in p.stdout.splitlines()]
     if structural:   # only the rewrites that change the control-flow graph (the others leave the SSA form almost untouched)
         plain = ("wrap statement", "swap comparison", "rename local", "++ as", "-- as")
